@@ -32,6 +32,7 @@ import Pandora.Proofs.C03Pool
 import Pandora.Bridge.C03Pool
 import Pandora.Proofs.C03Leaf
 import Pandora.Bridge.C03Wiring
+import Pandora.Proofs.C03Iter
 
 namespace Pandora.Props.C03
 open Pandora.Model.C03 Pandora.Proofs.C03
@@ -912,4 +913,30 @@ example : Pandora.Model.C03Wiring.restrict
     [("aggregator", "$.Aggregator"), ("discardOverflow", "false"), ("metrics", "$.metrics"), ("newSchedule", "param#2"),
      ("provider", "$.Provider")] Pandora.Model.C03Wiring.deps ≠ Pandora.Model.C03Wiring.deps := by decide
 
+
+/-- **the loop iteration regenerated from the source is a path of the model from EVERY reachable state** (not only from the
+canonical one-instance state `C03_source_iteration_is_model_path` checks): whatever the other instances are doing, for every
+instance `i` that stands at `Acquire` and the answers the state dictates — an item iff the provider is not exhausted, a token iff
+`i`'s profile has one, fire or discard freely unless discard_overflow is off — the operations the regenerated body performs, in
+source order with the deferred `Release` last, are enabled one after the other for instance `i` and the item just acquired
+(number `s.acquired`), and lead back to the `IsFinished` check (out of the loop when the ammo is finished); the iteration
+function returns nil resp. the out-of-ammo error accordingly -/
+theorem C03_iteration_from_any_state (c : Cfg) (pre : List Ev) (s : St) (hrun : run c (init c) pre = some s) (i : Nat)
+    (hpc : s.pcs[i]? = some .acquire) (o : Pandora.Model.C03Loop.Oracle)
+    (hacq : o.acqOk = decide (s.ammoLeft ≠ some 0)) (hwait : o.waitOk = decide (0 < s.left c i))
+    (hfire : o.fire = false → c.discardOn = true) :
+    ∃ evs s', (Pandora.Model.C03Loop.exec Pandora.Gen.InstLoop.iterBody o .run none []).1.mapM
+        (Pandora.Proofs.C03Iter.toEvAt i s.acquired) = some evs ∧
+      run c s evs = some s' ∧
+      s'.pcs[i]? = some (if o.acqOk then .check else .done) ∧
+      (Pandora.Model.C03Loop.exec Pandora.Gen.InstLoop.iterBody o .run none []).2 = (if o.acqOk then .retNil else .retErr) ∧
+      (o.acqOk = true → evs.getLast? = some (.rel i s.acquired)) :=
+  Pandora.Proofs.C03Iter.iteration_from_any_state c pre s hrun i hpc o hacq hwait hfire
+
+-- `C03_iteration_from_any_state`: its hypotheses are met in the middle of a run of three instances — instance 1 holds an item and
+-- a token, instance 2 has finished, instance 0 stands at `Acquire` with one item and one shared token left (3 items, 3 tokens at the start)
+example : ∃ s, run ⟨false, 3, some 3, true, 3⟩ (init ⟨false, 3, some 3, true, 3⟩)
+    [.start 0, .start 1, .start 2, .chk 1 3, .acq 1, .tokOk 1, .chk 2 2, .acq 2, .tokOk 2, .discard 2, .rel 2 1, .chk 0 1] = some s ∧
+    s.pcs[0]? = some .acquire ∧ s.ammoLeft ≠ some 0 ∧ 0 < s.left ⟨false, 3, some 3, true, 3⟩ 0 := by
+  refine ⟨_, rfl, by decide, by decide, by decide⟩
 end Pandora.Props.C03
